@@ -846,7 +846,9 @@ class Dict(dict, base.Symbolic, pg_typing.CustomTyping):
       value = self.sym_getattr(key)
     if value == pg_typing.MISSING_VALUE:
       self[key] = default
-      value = default
+      # NOTE: the value that is stored (e.g. the `pg.List` made from a plain
+      # list) is returned, as `dict.setdefault` returns the object it holds.
+      value = self.sym_getattr(key) if key in self else default
     return value
 
   def update(
